@@ -1,8 +1,10 @@
 package main
 
 import (
+	"fmt"
 	"go/token"
 	"go/types"
+	"os"
 	"strings"
 
 	"golang.org/x/tools/go/ssa"
@@ -16,6 +18,9 @@ func c07(c *Ctx) {
 	// alive and the next Reset is swallowed
 	if !c.importing {
 		importSibling(c, "C12", "C07.R7", func(rule string) bool { return rule == "C12.R5" })
+		// R8: the stub in each slot loads the callback's func value into the context register and jumps through it, for
+		// every 64-bit address (C15: emitted byte templates)
+		importSibling(c, "C15", "C07.R8", func(rule string) bool { return rule == "C15.A1" || rule == "C15.E" || rule == "C15.A3" })
 	}
 	r.Expl = "Structural clauses behind 'interface-variable mocks dispatch each method to its own replacement and restore': every pointer embedded into a generated stub is extracted from a value that is, on the same path, added by an accumulating store (append / map insert) to memory reachable from the mock context that the interface variable's data word points to (a plain field overwrite loses the previous stub's closure); the builder's interface-mocker cache key depends on the variable's address and not on Type.String(); every slot of the fabricated method table is defaulted to the not-implemented routine by a loop over the whole table, and the mocked slot is the index whose method name equals the requested one; the variable's words are backed up first-write-wins and Cancel writes exactly them back; allocator errors reach the caller. That the stub code works and GC behaviour itself are not decided."
 	r.RuleText = "one obligation per (rule, embed site / key / loop / store)"
@@ -333,6 +338,66 @@ func c07(c *Ctx) {
 				}
 			}
 		})
+		// and on every successful way out the fabricated interface value has been written into the variable (on the
+		// cached path too: the variable may have been reassigned since the first method was mocked)
+		varP := pi.Params[0]
+		isVar := func(v ssa.Value) bool { return v == ssa.Value(varP) }
+		writesThrough := func(cal *ssa.Function, k int) bool {
+			if cal == nil || cal.Blocks == nil || k >= len(cal.Params) {
+				return false
+			}
+			prm := cal.Params[k]
+			w := false
+			eachInstr(cal, func(i ssa.Instruction) {
+				if st, ok := i.(*ssa.Store); ok && addrDerivedFrom(st.Addr, prm, 0) {
+					w = true
+				}
+			})
+			return w
+		}
+		// the variable's address as an untyped pointer
+		var gens []ssa.Value
+		eachInstr(pi, func(i ssa.Instruction) {
+			if v, ok := i.(ssa.Value); ok && v.Type().String() == "unsafe.Pointer" && dependsOn(v, isVar) {
+				gens = append(gens, v)
+			}
+		})
+		isApply := func(j ssa.Instruction) bool {
+			switch x := j.(type) {
+			case *ssa.Store:
+				for _, g := range gens {
+					if addrDerivedFrom(x.Addr, g, 0) {
+						return true
+					}
+				}
+				return false
+			case *ssa.Call:
+				cal := staticCallee(x.Common())
+				for k, a := range x.Call.Args {
+					if a.Type().String() == "unsafe.Pointer" && dependsOn(a, isVar) && writesThrough(cal, k) {
+						return true
+					}
+				}
+			}
+			return false
+		}
+		if os.Getenv("GOOMVET_DEBUG") != "" {
+			eachInstr(pi, func(i ssa.Instruction) {
+				if isApply(i) {
+					fmt.Println("C07 apply:", i.String(), p.Pos(posOf(i)))
+				}
+			})
+		}
+		okWritten := true
+		for _, ret := range returnsOf(pi) {
+			if ei := errIndex(pi.Signature); ei >= 0 && isNilConst(retResult(ret, ei)) {
+				if !passedBefore(pi, ret, isApply, nil) {
+					okWritten = false
+				}
+			}
+		}
+		r.Check(okWritten, "C07.R3", "every successful path of proxy.Interface writes the variable", p.Pos(pi.Pos()), "the fabricated value is stored through the variable's address before success is reported",
+			"a successful path (the one that reuses the cached fabricated value) returns without writing it into the variable: if the variable was reassigned since the first method was mocked it stays what it was and calls reach the real implementation (or a nil variable stays nil)")
 		r.Check(okIdx, "C07.R3", "both paths of proxy.Interface use the computed index", p.Pos(pi.Pos()), "fresh and cached table both written at methodIndex", "the fresh or the cached method table is written at an index other than the one computed for the method")
 	}
 
@@ -574,4 +639,33 @@ func templateCopy(p *Prog, mi *ssa.Function, table *ssa.Alloc, n int64) *ssa.Sto
 		return nil
 	}
 	return cp
+}
+
+// addrDerivedFrom: addr is the pointer root itself, reinterpreted or offset (conversions, field and element addresses) — no
+// load in between.
+func addrDerivedFrom(addr ssa.Value, root ssa.Value, depth int) bool {
+	if depth > 8 {
+		return false
+	}
+	addr = resolveLocal(addr)
+	if addr == root {
+		return true
+	}
+	switch x := addr.(type) {
+	case *ssa.Convert:
+		return addrDerivedFrom(x.X, root, depth+1)
+	case *ssa.ChangeType:
+		return addrDerivedFrom(x.X, root, depth+1)
+	case *ssa.FieldAddr:
+		return addrDerivedFrom(x.X, root, depth+1)
+	case *ssa.IndexAddr:
+		return addrDerivedFrom(x.X, root, depth+1)
+	case *ssa.Phi:
+		for _, e := range x.Edges {
+			if addrDerivedFrom(e, root, depth+1) {
+				return true
+			}
+		}
+	}
+	return false
 }
